@@ -163,6 +163,11 @@ package flows
 //@   assigns Contact::name, Contact::language, Contact::status, Contact::timezone, Contact::urns, Contact::ticket, GroupList::groups, ContactURN::*, elems[*ContactURN], elems[*Group], map[string]*FieldValue, FieldValue::*, Value::*, Ticket::*, effects(EventCallback)
 //@   ensures [rep] contactAssetsOK(arg3) && groupsOK(arg3.groups) && noDupUUIDs(arg3.groups.groups)
 
+// the type name of an event is fixed when it is built (events.BaseEvent.Type_)
+//@ interface Event.Type
+//@   pure
+//@   reads events.BaseEvent::Type_
+
 // ---- C05: ghost step counter. sprintSteps is *defined* as the number of Run.CreateStep calls; only
 // session.visitNode calls it (structural obligation callers_subset), so it counts the steps a sprint visits.
 //@ ghost sprintSteps int protected
